@@ -1432,6 +1432,50 @@ theorem c03_self_send_unregistered {V : Type} (r : Registry) (tc : TCodec V) (se
   have hmt : messageType r (tc.typeOf v) = errorType := by simp [messageType, hreg]
   simp only [selfSend, hmt, hp, Bool.false_eq_true, if_false]
 
+/-! ### the in-memory transport: refused buffers, close, quiescence -/
+
+theorem localEnvLoop_erase {V : Type} (cd : Codec V) (remote : Nat) (procs : List (List Nat))
+    (q : List (List Nat)) : (localEnvLoop cd remote procs q).map EnvEvent.erase = localLoop cd q := by
+  unfold localEnvLoop localLoop
+  rw [List.map_append, List.map_map]
+  congr 1
+  exact List.map_congr_left fun b _ => classifyEnv_erase cd remote procs b
+
+/-- **a refused buffer is isolated on the in-memory transport too**: whatever is put into the queue
+(too short for a type id, unknown type, undecodable body), the loop refuses exactly that buffer and
+hands on every other one, in order, until the connection is closed -/
+theorem c03_local_refused_isolated {V : Type} (cd : Codec V) (pre post : List (List Nat)) (bad : List Nat)
+    (e : RecvErr) (hbad : unmarshal cd bad = .error e) :
+    localLoop cd (pre ++ bad :: post) =
+      pre.map (classify cd) ++ .refused e :: post.map (classify cd) ++ [.closed .closed] := by
+  have : classify cd bad = .refused e := by
+    rcases c03_garbage_unmarshal cd bad with ⟨v, hv⟩ | ⟨e', he', _, hnf⟩
+    · rw [hv] at hbad; cases hbad
+    · rw [he'] at hbad; cases hbad
+      simp [classify, he', react, hnf]
+  simp [localLoop, this]
+
+/-- **closing an in-memory connection loses at most a suffix**: under every schedule, what was
+received plus what can still be received after the close is a prefix of what was sent — the buffers
+still in the first queue are gone, nothing else, and nothing is reordered or duplicated -/
+theorem c03_local_close_prefix (cap : Nat) (s : LQ) (sched : List LAct) :
+    (lclose (lrun cap s sched).1).got ++ (lclose (lrun cap s sched).1).out ++ (lrun cap s sched).1.inc =
+      s.got ++ s.out ++ s.inc ++ (lrun cap s sched).2 := by
+  simpa [lclose] using c03_local_fifo cap s sched
+
+/-- **nothing is stuck in the in-memory queues at quiescence**: when neither the forwarding
+goroutine nor the receiver can take a step, both queues are empty — everything sent was received -/
+theorem c03_local_quiescent (cap : Nat) (hcap : 0 < cap) (s : LQ)
+    (hm : lstep cap s .move = none) (hr : lstep cap s .recv = none) : s.inc = [] ∧ s.out = [] := by
+  have hout : s.out = [] := by
+    cases ho : s.out with
+    | nil => rfl
+    | cons b rest => simp [lstep, ho] at hr
+  refine ⟨?_, hout⟩
+  cases hi : s.inc with
+  | nil => rfl
+  | cons b rest => simp [lstep, hi, hout, hcap] at hm
+
 /-! ### the code regions the model stands for
 Regenerated from /repo's source on every run (`harness/cmd/astfacts` → `OnetVerif/Shapes.lean`): the
 calls that matter for synchronisation and data flow, the lock regions and (for decision logic) the
